@@ -4,7 +4,8 @@
 //
 // The explorer runs INSIDE the program: one generated Go-syntax source per key kind contains
 // runHist, which decodes a history index (a base-B number, B = K keys x {set v1 .. set vNV, delete},
-// most significant digit = first operation), applies it to a fresh map and after every operation
+// most significant digit = first operation), applies it to a fresh map (or, for short histories, to a
+// map pre-filled with all keys in one of the K! insertion orders) and after every operation
 // observes lookup + comma-ok of every key, len and a range loop (iterations, unknown keys, per-key
 // visit count, per-key value). All observations are folded into a rolling uint64 hash printed per
 // block of consecutive history indices. The identical source is run by Go (builtin map = the
@@ -693,10 +694,11 @@ func main() {
 		return
 	}
 	r := mc.Start("C13")
-	r.Rule("every operation history (base-B number, B = keys x {set v1, set v2, delete}) of length <= L per key kind is applied to a fresh map inside the compiled program; after every operation lookup, comma-ok of every key, len and a range loop are observed and folded into a rolling hash per block; Go's builtin map on the identical source is the oracle; distinct = distinct block hashes")
+	r.Rule("per key kind every operation history (a base-B number, B = keys x {set v1, set v2, delete}) of length <= L is applied inside the compiled program to the empty map and, for length <= PreLen, to every map pre-filled by inserting all K keys in each of the K! orders; after every operation lookup and comma-ok of every key, len and a range loop are observed and folded into a rolling hash per block of histories; Go's builtin map running the identical source is the oracle; distinct = distinct block hash lines")
 	r.Assume("float keys other than NaN (property statement)")
 	r.Assume("range order is unspecified: only order-independent aggregates (iterations, per-key visit count and value) are observed")
 	r.Assume("the map is not modified during a range loop")
+	r.Assume("thorough tier, 7 int32 keys, insert/delete only: the full observation follows the last operation of a history, a thin one (comma-ok of the operated key, len) the earlier ones; every prefix is itself an enumerated history")
 	ks := kinds(r.Thorough())
 	if sel := os.Getenv("C13_KINDS"); sel != "" {
 		var f []*kind
